@@ -28,6 +28,21 @@ def deep(c):
     return "all" if c else None
 
 
+def call_targets(b, bi):
+    """callee paths of the call terminating block bi (fn-pointer calls: every fn item that may flow into the pointer)"""
+    t = b.blocks[bi]["t"]
+    c = callee_of(t)
+    if c is not None:
+        return [c]
+    import json
+    out = []
+    for x in origins(b, t["f"], through_agg=True):
+        if x[0] == "const" and '"fn"' in x[1]:
+            v = json.loads(x[1])
+            out.append(v.get("res") or v.get("fn"))
+    return out or ["?"]
+
+
 def run(tier):
     rep = Report("C03", LEVEL, tier)
     rep.explanation = EXPLANATION
@@ -52,18 +67,28 @@ def run(tier):
             if b.blocks[bi]["cleanup"]:
                 continue
             if si == "t":
-                others.append((bi, callee_of(d)))
+                others.append((bi, call_targets(b, bi)))
             elif d["r"]["k"] == "agg" and d["r"].get("variant") == "Ok":
                 oks.append((bi, si, d))
             elif d["r"]["k"] == "agg" and d["r"].get("variant") == "Err":
                 errs.append((bi, si, d))
             else:
                 o = origins(b, d["r"]["o"]) if d["r"]["k"] == "use" else set()
-                others.append((bi, sorted(x[1] for x in o if x[0] == "call")))
+                cs = []
+                for x in o:
+                    if x[0] == "call":
+                        cs += call_targets(b, x[2])
+                others.append((bi, cs))
         own = []
         for bi, si, d in oks:
-            prov = origins(b, d["r"]["ops"][0], transparent=deep, through_agg=True)
+            prov = origins(b, d["r"]["ops"][0], transparent=deep, through_agg=True, record_calls=True, through_mut=True)
             from_lr = [x for x in prov if x[0] == "call" and x[1] in lr]
+            if any("Err" in x[3] for x in from_lr):
+                from_lr = []      # it also recycles the states of a failed construction: it decides success itself
+            # indirect calls through a function pointer: the pointees must all be construction functions
+            fnptrs = [__import__("json").loads(x[1]) for x in prov if x[0] == "const" and '"fn"' in x[1]]
+            if any((v.get("res") or v.get("fn")) in lr for v in fnptrs):
+                from_lr.append(("fnptr",))
             if not from_lr:
                 own.append((bi, si, d))
         short = p.replace("lalrpop::lr1::", "")
@@ -72,7 +97,7 @@ def run(tier):
             ok = True
             for bi, c in others:
                 cs = [c] if isinstance(c, str) else c
-                ok = ok and any(x in lr or (x or "").endswith("from_residual") for x in cs)
+                ok = ok and bool(cs) and all(x in lr or (x or "").endswith("from_residual") for x in cs)
             rep.ob("forwarder.passes-on-a-checked-result", short, ok and (bool(oks) or bool(others)),
                    "this function returns a table-construction Result that neither comes from another construction function nor from its own conflict check",
                    key="forwarder:%s" % short, file=rel, line=b.line, fn=p)
@@ -90,7 +115,7 @@ def run(tier):
             t = bl["t"]
             if t["k"] != "switch" or bl["cleanup"]:
                 continue
-            prov = origins(b, t["o"], transparent=deep, through_agg=True)
+            prov = origins(b, t["o"], transparent=deep, through_agg=True, record_calls=True, through_mut=True, follow_discr=True)
             ev = False
             for x in prov:
                 if x[0] == "call" and (CONFLICT_FN.search(x[1] or "") or (f.body(x[1]) is not None and reaches_conflicts(x[1]) and x[1] != p)):
@@ -139,7 +164,7 @@ def run(tier):
             if l is None:
                 continue
             if any(si != "t" and d["r"]["k"] == "discr" and d["r"]["p"]["l"] in imgs and not d["r"]["p"]["pr"] for _, si, d in era.defs.get(l, [])):
-                if era.dominates(bbi, sb):
+                if era.dominates(bbi, sb) and (sw is None or era.dominates(sb, sw[0])):
                     sw = (sb, dict((v, x) for v, x in t["targets"]), t["otherwise"])
         if sw is None:
             rep.anchor_missing("match on the build_states result")
